@@ -1,4 +1,4 @@
-(* C20 frame, full: outside C05-K1 / C05-K2 the code a build adds refers to its
+(* C20 frame, full: outside C05-K2 the code a build adds refers to its
    own jump entries and instructions only (from C05_full and the own-reference
    theorem of Proofs/C20/Frame.v). *)
 From Coq Require Import List Arith Bool NArith Lia.
@@ -8,12 +8,12 @@ From GV Require Import Base.Result Gen.TokenTypes Gen.Defs Gen.Instr Model.Parse
 Import ListNotations.
 
 Theorem compile_own_code : forall nodes init lit t r,
-  tree_in nodes t -> tree_good t -> empty_after_end init t = false ->
+  tree_in nodes t -> tree_good t ->
   compile init lit t = Ok r -> own_code init (code_of_compile r) = true.
 Proof.
-  intros nodes init lit t r Htin Hg Hk1 Hc.
+  intros nodes init lit t r Htin Hg Hc.
   destruct (compile_own_refs nodes init lit t r Htin Hc) as [Hrefs Hentry].
-  destruct (compile_wf init lit nodes t r Htin Hg Hk1 Hc) as [_ [Hjumps _]].
+  destruct (compile_wf init lit nodes t r Htin Hg Hc) as [_ [Hjumps _]].
   unfold own_code, code_of_compile. cbn [k_instrs k_jumps k_entry].
   rewrite Hrefs, Hentry, andb_true_r, andb_true_l.
   apply forallb_forall. intros x Hx. apply In_nth_error in Hx. destruct Hx as [k Hk].
